@@ -32,6 +32,7 @@ fn main() {
         "cache" => cachem::run(&opts),
         "conc" => conc::run(&opts),
         "race" => race::run(&opts),
+        "lag" => crash::run_lag(&opts),
         "racechild" => race::racechild(&opts),
         "seq" => seq::run(&opts),
         "tracegen" => crash::tracegen(&opts),
